@@ -1,7 +1,7 @@
 """C07 - Rendering commutes with translation  (metadata + implementation-side search; Coq parts in Properties/C07_*.v)"""
 from common import *
 
-CLAIMED = True
+CLAIMED = False  # until theorem parts are merged
 LEVEL = 'proof'
 LEVEL_TEXT = 'TODO'
 LEVEL_NOTE = 'TODO'
